@@ -136,6 +136,14 @@ class LeaseCheckingCrawler(ShareCrawler):
         # the keys individually
         for k in so_far:
             self.state["cycle-to-date"].setdefault(k, so_far[k])
+        # a state file saved in the middle of a cycle holds the histogram
+        # in its JSON-safe form, a list of [minage, maxage, count] (see
+        # get_state/convert_lease_age_histogram): turn it back into the
+        # dictionary that add_lease_age_to_histogram() updates
+        lah = self.state["cycle-to-date"]["lease-age-histogram"]
+        if not isinstance(lah, dict):
+            self.state["cycle-to-date"]["lease-age-histogram"] = dict(
+                ((minage, maxage), count) for (minage, maxage, count) in lah)
 
     def create_empty_cycle_dict(self):
         recovered = self.create_empty_recovered_dict()
